@@ -65,7 +65,7 @@ def multitask_kernel_case(draw):
 
 def run_multitask_kernel(case, ctx: Ctx):
     t = case["t"]
-    ctx.cls = f"Multitask|kb{case['kb']}|xb{case['xb']}|{kern.describe(case['kernel'])}"
+    ctx.cls = f"Multitask|kb{case['kb']}|xb{case['xb']}|{'smooth' if kern.smooth_at_zero(case['kernel']) else 'kink'}"
     x1, x2 = T(case["x1"]), T(case["x2"])
     with ctx.observing("build"):
         k = K.MultitaskKernel(kern.build_kernel(case["kernel"]), num_tasks=t, rank=case["rank"], batch_shape=torch.Size(case["kb"]))
@@ -235,7 +235,7 @@ def run_grid_kernel(case, ctx: Ctx):
     d = case["d"]
     sizes = case["sizes"]
     ragged = len(set(sizes)) > 1
-    ctx.cls = f"Grid|d{d}|{'ragged' if ragged else 'square'}|tz{int(case['toeplitz'])}|{case['mode']}|{kern.describe(case['base'])}"
+    ctx.cls = f"Grid|d{d}|{'ragged' if ragged else 'square'}|tz{int(case['toeplitz'])}|{case['mode']}"
     axes = [T(a) for a in case["axes"]]
     with ctx.observing("build"):
         base = kern.build_kernel(case["base"])
@@ -748,7 +748,7 @@ def run_rff(case, ctx: Ctx):
 def kiss_settings(draw, n):
     s = G.default_settings()
     s["fpv"] = draw(st.booleans())
-    s["max_chol"] = draw(st.sampled_from([800, 800, 0]))
+    s["max_chol"] = draw(st.sampled_from([800, 0]))
     s["precond"] = draw(st.sampled_from([0, 15]))
     s["detach"] = draw(st.booleans())
     s["lazy"] = draw(st.sampled_from([True, True, False]))
@@ -806,20 +806,57 @@ def _joint_blocks(covar, parts):
         return covar(torch.cat(parts, -2)).to_dense()
 
 
+class _iter_ctx:
+    """gpmodel.settings_ctx (tolerance 1e-12, full-rank decompositions) with the CG iteration cap lowered from 2000 to 100: the
+    systems have <= 11 unknowns, and the dependency's CG keeps iterating to the cap once its 1e-12 target is below what it can
+    measure (each iteration is a structured W K_UU W^T product)"""
+
+    def __init__(self, s):
+        self.s = s
+
+    def __enter__(self):
+        from contextlib import ExitStack
+
+        self.stack = ExitStack()
+        self.stack.enter_context(G.settings_ctx(self.s))
+        self.stack.enter_context(S.max_cg_iterations(100))
+        self.stack.enter_context(S.max_lanczos_quadrature_iterations(100))  # linear_cg insists on tridiag size <= iteration cap
+        return self
+
+    def __exit__(self, *a):
+        return self.stack.__exit__(*a)
+
+
+def _calibrate_cg(A, rhs, s):
+    """gpmodel.cg_calibration's idea under the settings used here: solve the dense system with the dependency's CG itself and
+    discard the case if the *solver* misses the dense solution (limit one order below the comparison atol)"""
+    from linear_operator import to_linear_operator
+
+    with _iter_ctx(s), torch.no_grad():
+        sol = to_linear_operator(A).solve(rhs)
+    ref = torch.linalg.solve(A, rhs)
+    err = float((sol - ref).abs().max() / ref.abs().max().clamp_min(1e-300))
+    if not err <= 1e-6:
+        raise Discard("cg path: the dependency's CG (tolerance 1e-12) misses the dense solution of this very system by > 1e-6")
+
+
 def _kiss_tolerances(case, s, fps, A, rhs, kappa, n_nodes):
-    """(rtol, atol) and domain calibration of the iterative paths"""
+    """(rtol, atol) and domain calibration of the iterative paths.  The generator constructs well-conditioned systems with
+    pairwise distinct training rows for these paths; what is left is discarded (not reported) when the dependency's own
+    solver misses the dense solution of the very same system (gpmodel.cg_calibration, one order below the comparison atol)."""
     if s["max_chol"] == 0 and (s["fpv"] or fps):
-        # Lanczos (root / inverse-root decompositions from one random start vector): exact only for a well separated spectrum
+        # Lanczos (root / inverse-root decompositions from one start vector): spans the whole space only if the eigenvalues of
+        # K~+S are distinct; measured error on this domain <= 7e-6, tolerance as in C01 (DESIGN 1.4: Lanczos 2e-3)
         ev = torch.linalg.eigvalsh(A)
         gap = float(((ev[1:] - ev[:-1]) / ev[-1:]).min()) if A.shape[-1] > 1 else 1.0
-        if gap < 1e-3 or kappa > 1e4:
-            raise Discard("lanczos path: clustered spectrum (relative gap < 1e-3) or kappa > 1e4")
-        G.cg_calibration(A, rhs, s)
+        if gap < 1e-6 or kappa > 1e4:
+            raise Discard("lanczos path: repeated eigenvalue (relative gap < 1e-6) or kappa > 1e4")
+        _calibrate_cg(A, rhs, s)
         return 2e-3, 2e-3
     if s["max_chol"] == 0:
         if kappa > 1e5:
             raise Discard("ill-conditioned (kappa>1e+05) on the CG path")
-        G.cg_calibration(A, rhs, s)
+        _calibrate_cg(A, rhs, s)
         return 1e-4, 1e-5
     t = G.chol_tol(kappa)
     return t, t
@@ -857,7 +894,7 @@ def run_kiss_predict(case, ctx: Ctx):
         model.eval()
         lik.eval()
         torch.manual_seed(case["torch_seed"])
-        with G.settings_ctx(s), S.fast_pred_samples(fps), torch.no_grad():
+        with _iter_ctx(s), S.fast_pred_samples(fps), torch.no_grad():
             if fantasy:
                 model(Xs[:1])
                 model = model.get_fantasy_model(T(case["Xf"]), T(case["yf"]))
@@ -867,7 +904,7 @@ def run_kiss_predict(case, ctx: Ctx):
     ctx.close("mean", gm, mean_w, rtol=rtol, atol=atol, scale=scale)
     ctx.close("cov", gc, cov_w, rtol=rtol, atol=atol, scale=scale)
     ctx.set_nontrivial(ns >= 2 and (d >= 2 or fantasy or s["fpv"] or fps or s["max_chol"] == 0))
-    ctx.label("kiss_predict", f"d={d}", f"fantasy={fantasy}", f"fpv={int(s['fpv'])}", f"fps={int(fps)}", f"path={path}", f"lazy={int(s['lazy'])}",
+    ctx.label("kiss_predict", f"d={d}", f"fantasy={fantasy}", f"{'wiski' if fantasy else 'plain'}:{path}", f"fpv={int(s['fpv'])}", f"fps={int(fps)}", f"path={path}", f"lazy={int(s['lazy'])}",
               f"scale={case['outputscale'] is not None}", f"lik={case['lik']['l']}{'+' if case['lik'].get('learn') else ''}", f"precond={s['precond']}")
 
 
@@ -888,7 +925,7 @@ def kiss_dynamic_case(draw):
         Us = [[2 * u - 0.5 for u in row] for row in Us]  # [-0.5, 1.5]
         Us[0][draw(st.integers(0, d - 1))] = 1.25 if side > 0 else -0.25  # at least one coordinate outside
     else:
-        Us = [[0.02 + 0.96 * u for u in row] for row in Us]
+        pass  # fractions of the training range, its end points included
     tox = lambda UU: [[l_ + u * w_ for u, l_, w_ in zip(row, lo, w)] for row in UU]  # noqa: E731
     return {
         "d": d, "n": n, "ns": ns, "bounds": None, "sizes": [draw(st.integers(8, 12)) for _ in range(d)], "size_as_int": False,
@@ -955,8 +992,9 @@ def convergence_case(draw):
     if name == "RQ":
         base["p"]["alpha"] = [draw(kern.pos(0.5, 5.0))]
     if name == "Periodic":
+        # effective lengthscale p * sqrt(l) / (2 pi) >= 0.3 of the width
         base["p"]["lengthscale"] = [[draw(st.sampled_from([1.0, 2.0, 4.0])) for _ in range(ld)]]
-        base["p"]["period_length"] = [[round(draw(st.sampled_from([1.0, 1.5, 3.0])) * w_, 6) for w_ in wref]]
+        base["p"]["period_length"] = [[round(draw(st.sampled_from([2.0, 3.0, 5.0])) * w_, 6) for w_ in wref]]
     n = draw(st.integers(2, 5))
     inner = lambda U: [[0.05 + 0.9 * u for u in row] for row in U]  # noqa: E731  (5 % away from the bounds: see assumptions)
     U1, U2 = inner(draw(kern.arr([n, d], UNIT))), inner(draw(kern.arr([n, d], UNIT)))
@@ -968,7 +1006,14 @@ def run_convergence(case, ctx: Ctx):
     d = case["d"]
     sym = is_symmetric_setup(case)
     ctx.cls = f"SKI|converge|d{d}|{'sym' if sym or d == 1 else 'asym'}"
-    x1, x2 = T(case["x1"]), T(case["x2"])
+    # the drawn points plus a fixed low-discrepancy set in the same interior region, so that the maximum over the point pairs is
+    # a fair estimate of the sup norm of the error (a single pair can sit next to a zero of the error function)
+    lo = T([b[0] for b in case["bounds"]])
+    wd = T([b[1] - b[0] for b in case["bounds"]])
+    primes = [2.0, 3.0, 5.0]
+    halton = T([[0.05 + 0.9 * (((i + 1) * math.sqrt(primes[j])) % 1.0) for j in range(d)] for i in range(12)])
+    x1 = torch.cat([T(case["x1"]), lo + halton[:6] * wd])
+    x2 = torch.cat([T(case["x2"]), lo + halton[6:] * wd])
     want = kern.ref_kernel(case["base"], x1, x2)
     errs = []
     for mult in (1, 2):
@@ -979,9 +1024,9 @@ def run_convergence(case, ctx: Ctx):
         errs.append(float((got - want).abs().max()))
     # cubic interpolation is third order (ratio 8 per halving); the float32 grid buffers put a floor of ~1e-6 under the error
     ctx.check("fine_error", errs[1] < 1e-3, f"|K~ - K| = {errs[1]:.3e} on the fine grid {[2 * g for g in case['sizes']]} (coarse: {errs[0]:.3e})")
-    # (the errors are maxima over <= 25 point pairs, not sup norms: measured ratios 3.3 ... 30 over 900 cases on the repaired tree,
-    #  so the demand is a factor 2; an ordering defect gives a ratio of ~1 at an error of 0.1 ... 0.8)
-    ctx.check("error_decreases", errs[1] <= max(errs[0] / 2, 5e-6), f"|K~ - K| = {errs[0]:.3e} on {case['sizes']}, {errs[1]:.3e} on the doubled grid")
+    # measured on the repaired tree over 600 cases: ratio >= 7 whenever the fine error is above the float32 floor, fine error
+    # <= 2.7e-4; an ordering defect gives a ratio of ~1 at an error of 0.1 ... 0.8
+    ctx.check("error_decreases", errs[1] <= max(errs[0] / 4, 5e-6), f"|K~ - K| = {errs[0]:.3e} on {case['sizes']}, {errs[1]:.3e} on the doubled grid")
     ctx.notes["errs"] = errs
     ctx.set_nontrivial(d >= 2 and not sym)
     ctx.label("ski_convergence", f"d={d}", f"sym={sym}", f"base={kern.describe(case['base'])}", f"toeplitz={case['toeplitz']}")
@@ -994,18 +1039,55 @@ SUBCHECKS = [
     Subcheck("dense.multitask", run_multitask_kernel, strategy=multitask_kernel_case, quick=400, thorough=8000, min_shard=100),
     Subcheck("dense.index", run_index_kernel, strategy=index_kernel_case, quick=300, thorough=5000, min_shard=150),
     Subcheck("dense.lcm", run_lcm_kernel, strategy=lcm_kernel_case, quick=300, thorough=6000, min_shard=100),
-    Subcheck("dense.grid", run_grid_kernel, strategy=grid_kernel_case, quick=600, thorough=12000, min_shard=100),
+    Subcheck("dense.grid", run_grid_kernel, strategy=grid_kernel_case, quick=800, thorough=12000, min_shard=100),
     Subcheck("sgpr.train", run_sgpr_train, strategy=lambda: sgpr_case(False), quick=400, thorough=10000, min_shard=50),
-    Subcheck("sgpr.predict", run_sgpr_predict, strategy=lambda: sgpr_case(True), quick=800, thorough=20000, min_shard=50),
-    Subcheck("kiss.kernel", run_ski_kernel, strategy=ski_kernel_case, quick=500, thorough=10000, min_shard=100),
+    Subcheck("sgpr.predict", run_sgpr_predict, strategy=lambda: sgpr_case(True), quick=1000, thorough=20000, min_shard=50),
+    Subcheck("kiss.kernel", run_ski_kernel, strategy=ski_kernel_case, quick=800, thorough=10000, min_shard=100),
     Subcheck("kiss.predict", run_kiss_predict, strategy=kiss_predict_case, quick=1200, thorough=30000, min_shard=50),
-    Subcheck("kiss.dynamic", run_kiss_dynamic, strategy=kiss_dynamic_case, quick=300, thorough=6000, min_shard=50),
-    Subcheck("kiss.convergence", run_convergence, strategy=convergence_case, quick=200, thorough=3000, min_shard=50),
-    Subcheck("rff.predict", run_rff, strategy=rff_case, quick=400, thorough=10000, min_shard=50),
-    Subcheck("interp.laws", run_interp_laws, strategy=interp_case, quick=600, thorough=12000, min_shard=150),
+    Subcheck("kiss.dynamic", run_kiss_dynamic, strategy=kiss_dynamic_case, quick=400, thorough=6000, min_shard=50),
+    Subcheck("kiss.convergence", run_convergence, strategy=convergence_case, quick=300, thorough=3000, min_shard=50),
+    Subcheck("rff.predict", run_rff, strategy=rff_case, quick=500, thorough=10000, min_shard=50),
+    Subcheck("interp.laws", run_interp_laws, strategy=interp_case, quick=800, thorough=12000, min_shard=150),
     Subcheck("interp.order", run_interp_order, strategy=interp_order_case, quick=100, thorough=1000, min_shard=100),
 ]
 
-RULE = "see module docstring"
+RULE = ("Generated cases per sub-check: structured kernels (MultitaskKernel t<=4 / IndexKernel t<=5, rank 0..t, kernel and input batch "
+        "shapes; LCMKernel with <= 3 members and per-member ranks; GridKernel d<=3, ragged sizes 2..5, Toeplitz on/off, regular / irregular "
+        "axes, train/eval with cache reuse and update_grid, product kernels RBF/ARD, Periodic, SpectralMixture in d>=2 and any stationary "
+        "kernel in d=1) against explicit dense formulas; InducingPointKernel (depth-1 kernel expressions over 10 strictly p.d. kernels, "
+        "n<=8, m<=5 distinct inducing points, Gaussian / fixed-noise (+learned) likelihood) against the Nystrom matrix, the Titsias bound "
+        "and the SGPR predictive equations over sgpr_diagonal_correction x lazily_evaluate_kernels x fast_pred_var x detach x repeated "
+        "call; GridInterpolationKernel (d<=3, per-dimension bounds and sizes, Toeplitz on/off) against W K_UU W^T built from an "
+        "independent cubic-convolution W; KISS-GP exact-GP predictions (d<=2) over fast_pred_var x fast_pred_samples x {Cholesky, CG, "
+        "Lanczos} x lazy/eager x preconditioner, with and without a WISKI fantasy update, against the dense conditional on the kernel's "
+        "own eagerly evaluated matrix; the same with data-derived grids and test inputs inside / outside the training range; RFF kernel "
+        "and predictions against Z Z^T / D with the stored weights; Interpolation.interpolate (d<=3, ragged) against the independent W "
+        "(partition of unity, node exactness, lexicographic index, quadratics, nearest-node boundary cells) and its error order on grid "
+        "halving; convergence of the interpolated kernel on grid doubling. Non-trivial: d>=2 with an asymmetric grid or ARD base kernel "
+        "(grid / interpolation sub-checks); number of inducing points != n (SGPR); rank < tasks or n1 != n2 (multitask / index / LCM); "
+        "n* >= 2 and a non-default path (KISS predictions); n != 2D (RFF); distinct = distinct canonical case.")
 
-SPEC = PropertySpec(pid="C09", rule=RULE, assumptions=[], subchecks=SUBCHECKS)
+ASSUMPTIONS = [
+    "float64, CPU. The inducing grid buffers of GridInterpolationKernel are float32 (create_grid default dtype): kiss.kernel compares at 1e-5, "
+    "the convergence thresholds (1e-3, factor 4, floor 5e-6) are chosen with that in mind",
+    "GridKernel / GridInterpolationKernel in d >= 2 are judged for product kernels only (RBF incl. ARD, Periodic, SpectralMixture): the "
+    "Kronecker structure is the product over dimensions of the 1-d base kernel, which is the d-dimensional kernel only for those; "
+    "Toeplitz assembly is judged on equally spaced axes only (documented premise)",
+    "prediction strategies are compared with the dense conditional on the approximate kernel matrix as the kernel itself evaluates it "
+    "eagerly (second instance of the same recipe); SGPR: K(X,X) = Q (+ clamped diagonal correction), K(X*,X) = Q*x, K(X*,X*) = exact base "
+    "kernel on the default lazy path; on the eager path (lazily_evaluate_kernels off) only 'strategy = dense conditional on the matrix "
+    "the kernel evaluates to' is checked (test-test block Q** + correction)",
+    "SGPR with test inputs identical to the training inputs is generated without the diagonal correction only (with it the kernel's own "
+    "cross block carries the correction: FITC at the training points, not an SGPR equation)",
+    "inducing matrices with cond(Kzz) > 1e6 and systems with cond(K+S) > 1e8 (1e5 CG, 1e4 Lanczos) are discarded and counted",
+    "iterative paths: cg/eval_cg tolerance 1e-12, max_cg_iterations 100 (<= 11 unknowns), max_root_decomposition_size 200; cases on which the "
+    "dependency's own CG misses the dense solution of the same system by > 1e-6 are discarded (calibration of the domain, not the oracle)",
+    "WISKI and fast_pred_samples factor numerically singular m x m matrices with jitter (psd_safe_cholesky): compared at 1e-5",
+    "kiss.convergence evaluates at points >= 5 % of the width away from the grid bounds: create_grid extends the grid by less than one "
+    "(actual) cell, so inputs within width/((G-1)(G-2)) of a bound fall into the boundary cell and are interpolated by nearest node "
+    "(first-order accurate); kiss.kernel covers that sliver exactly through the independent W",
+    "LCMKernel members are generated without active_dims (LCMKernel calls MultitaskKernel.forward directly; active_dims is C06's subject); "
+    "InducingPointKernel with a MultitaskGaussianLikelihood is not generated",
+]
+
+SPEC = PropertySpec(pid="C09", rule=RULE, assumptions=ASSUMPTIONS, subchecks=SUBCHECKS)
